@@ -83,8 +83,11 @@ func (u *UseCase) UpdateTx(ctx context.Context, oldTxId, newTxId string, filter 
 	defer u.allStore.Unlock()
 
 	err = u.fileRepo.RunTransaction(ctx, func(ctx context.Context) error {
+		// One sequence number for the whole commit: a snapshot point drawn
+		// concurrently lies before or after all of its versions, never in between.
+		seq := sequence.Next()
 		for i := range files {
-			files[i].Seq = sequence.Next()
+			files[i].Seq = seq
 			err = u.fileRepo.Set(ctx, files[i])
 			if err != nil {
 				return fmt.Errorf("store to tx: %w", err)
